@@ -16,6 +16,7 @@ import (
 // without sleeping. scorch.RegistryEventCallbacks must not be written after init, so a fixed pool
 // of callback names is registered at init and a gate borrows one slot.
 type MergeGate struct {
+	kind    scorch.EventKind
 	slot    int
 	armed   atomic.Bool
 	parked  chan struct{}
@@ -37,7 +38,7 @@ func init() {
 		gateNames[i] = fmt.Sprintf("verif-merge-gate-%d", i)
 		gateFree <- i
 		scorch.RegistryEventCallbacks[gateNames[i]] = func(e scorch.Event) bool {
-			if g := gatePool[i].Load(); g != nil && e.Kind == scorch.EventKindMergeTaskIntroductionStart && g.armed.CompareAndSwap(true, false) {
+			if g := gatePool[i].Load(); g != nil && e.Kind == g.kind && g.armed.CompareAndSwap(true, false) {
 				close(g.parked)
 				<-g.release
 			}
@@ -47,10 +48,25 @@ func init() {
 }
 
 // AcquireGate borrows a gate (blocks while all slots are in use).
-func AcquireGate() *MergeGate {
-	g := &MergeGate{slot: <-gateFree, parked: make(chan struct{}), release: make(chan struct{})}
+func AcquireGate() *MergeGate { return AcquireGateFor(scorch.EventKindMergeTaskIntroductionStart) }
+
+// AcquireGateFor borrows a gate that parks the goroutine firing the given event kind instead:
+// EventKindPurgerCheck parks the persister at its idle point (nothing is persisted while it is
+// parked: only usable with unsafe_batch, where Batch does not wait for the persister).
+func AcquireGateFor(kind scorch.EventKind) *MergeGate {
+	g := &MergeGate{kind: kind, slot: <-gateFree, parked: make(chan struct{}), release: make(chan struct{})}
 	gatePool[g.slot].Store(g)
 	return g
+}
+
+// WaitParked waits until the gate has parked its goroutine (or max elapsed) and reports whether it has.
+func (g *MergeGate) WaitParked(max time.Duration) bool {
+	select {
+	case <-g.parked:
+		return true
+	case <-time.After(max):
+		return false
+	}
 }
 
 // Name is the value for the index config key "eventCallbackName".
